@@ -350,7 +350,20 @@ def _arg_tuple(fn: ast.AST, node: ast.AST) -> Optional[List[ast.AST]]:
         if binds:
             node = binds[-1][0].value
     if isinstance(node, (ast.GeneratorExp, ast.ListComp)) and isinstance(node.elt, ast.Tuple):
-        return list(node.elt.elts)
+        out: List[ast.AST] = []
+        for e in node.elt.elts:
+            if isinstance(e, ast.Starred):
+                # (*head, method, weight, *tail): a starred local bound once to a tuple display is spliced in; anything else
+                # (a loop variable, a call) has an arity this rule cannot see
+                v = e.value
+                bs = [b for b in assignments(fn, v.id) if b[2] == "assign"] if isinstance(v, ast.Name) else []
+                if len(bs) == 1 and isinstance(bs[0][0].value, ast.Tuple) and not any(isinstance(x, ast.Starred) for x in bs[0][0].value.elts):
+                    out += list(bs[0][0].value.elts)
+                else:
+                    return None
+            else:
+                out.append(e)
+        return out
     if isinstance(node, ast.List) and node.elts and isinstance(node.elts[0], ast.Tuple):
         return list(node.elts[0].elts)
     # list filled by args.append((…)) in a loop
